@@ -133,6 +133,11 @@ let ghist f l ops =
   let shl32 = Z.shift_left Z.one 32 in
   let alloc = fun _ -> let r = z_of_zarith (Z.mul (Z.of_int !nextid) shl32) in incr nextid; r in   (* segment pointer = id << 32 *)
   let segs = ref (fun _ -> z_of_int (-1)) and n = ref (z_of_int 0) and c = ref (z_of_int 0) in
+  (* element values: cells index -> value, kept in a table; the regenerated ArrayShifter (Gen_ShiftSqrt) runs on the cell FUNCTION *)
+  let cells : (int, int) Hashtbl.t = Hashtbl.create 1024 and nextv = ref 1 in
+  let cellf = fun i -> z_of_int (try Hashtbl.find cells (Z.to_int (zarith_of_z i)) with Not_found -> 0) in
+  let flush_cells (f : BinNums.coq_Z -> BinNums.coq_Z) cnt = let vs = Array.init cnt (fun i -> Z.to_int (zarith_of_z (f (z_of_int i)))) in
+    Hashtbl.reset cells; Array.iteri (fun i v -> Hashtbl.replace cells i v) vs in
   let b = Buffer.create 1024 and bad = ref "" in
   let fail o = bad := (match o with GenPrelude.Stuck -> "GEN-STUCK" | GenPrelude.Fuel -> "GEN-FUEL" | _ -> "GEN-EXN") in
   List.iter (fun tok -> if !bad = "" then begin
@@ -143,7 +148,11 @@ let ghist f l ops =
       | 'b' -> if Z.leq (Z.of_string a) (zarith_of_z !c) then Some (Z.sub (zarith_of_z !c) (Z.of_string a)) else None
       | 's' | 'S' -> if Z.lt (Z.of_string a) (zarith_of_z !c) then Some (Z.of_string a) else None
       | 'c' | 'C' -> Some Z.zero
+      | 'D' -> let (_, _, m) = split_op tok in
+               if Z.leq (Z.of_string a) (zarith_of_z !c) && Z.leq (Z.of_string m) (Z.sub (zarith_of_z !c) (Z.of_string a))
+               then Some (Z.sub (zarith_of_z !c) (Z.of_string m)) else None
       | _ -> None) in
+    let ci () = Z.to_int (zarith_of_z !c) in
     let dlog = (match target with
       | None -> "d-1:-1x0"
       | Some t ->
@@ -159,10 +168,27 @@ let ghist f l ops =
     (match op with
      | 'a' | 'e' -> for _ = 1 to int_of_string a do if !bad = "" then
                       (match Gen_ArrSqrt.coq_AddBackCrt seg alloc !segs !n !c with
-                       | GenPrelude.Ok (((_, s'), n'), c') -> segs := s'; n := n'; c := c' | o -> fail o) done
+                       | GenPrelude.Ok (((_, s'), n'), c') -> Hashtbl.replace cells (ci ()) !nextv; incr nextv; segs := s'; n := n'; c := c' | o -> fail o) done
+     | 'I' -> (* Insert(p, m, item) = Reserve(count + m) + the regenerated ArrayShifter::InsertNogrow on the cells *)
+       let (_, _, ms) = split_op tok in let p = int_of_string a and m = int_of_string ms in
+       if p <= ci () then begin
+         (match Gen_ArrSqrt.coq_Reserve seg idx alloc !segs !n !c (z_of_int (ci () + m)) with GenPrelude.Ok ((_, s'), n') -> segs := s'; n := n' | o -> fail o);
+         if !bad = "" then begin
+           let cap = Gen_ArrSqrt.coq_GetCapacity idx !segs !n !c in
+           let it = Z.to_int (zarith_of_z cap) + ci () + m + 5 in Hashtbl.replace cells it !nextv; incr nextv;
+           (match Gen_ShiftSqrt.coq_ShiftInsert cellf !c cap (z_of_int p) (z_of_int m) (z_of_int it) with
+            | GenPrelude.Ok ((_, items'), c') -> flush_cells items' (Z.to_int (zarith_of_z c')); c := c' | o -> fail o) end end
+     | 'D' -> let (_, _, ms) = split_op tok in let p = int_of_string a and m = int_of_string ms in
+       if p <= ci () && m <= ci () - p then
+         (match Gen_ShiftSqrt.coq_ShiftRemove cellf !c (Gen_ArrSqrt.coq_GetCapacity idx !segs !n !c) (z_of_int p) (z_of_int m) with
+          | GenPrelude.Ok ((_, items'), c') -> flush_cells items' (Z.to_int (zarith_of_z c')); c := c' | o -> fail o)
      | 'r' -> (match Gen_ArrSqrt.coq_Reserve seg idx alloc !segs !n !c za with GenPrelude.Ok ((_, s'), n') -> segs := s'; n := n' | o -> fail o)
      | 's' | 'S' -> (match Gen_ArrSqrt.coq_SetCountCrt seg idx cnt alloc !segs !n !c za with
-                     | GenPrelude.Ok (((_, s'), n'), c') -> segs := s'; n := n'; c := c' | o -> fail o)
+                     | GenPrelude.Ok (((_, s'), n'), c') ->
+                       let oldc = ci () and newc = Z.to_int (zarith_of_z c') in
+                       for i = oldc to newc - 1 do Hashtbl.replace cells i (if op = 'S' then !nextv else 0) done;
+                       if op = 'S' then incr nextv;
+                       segs := s'; n := n'; c := c' | o -> fail o)
      | 'k' -> (match Gen_ArrSqrt.coq_ShrinkFit seg idx !segs !n !c with GenPrelude.Ok (_, n') -> n := n' | o -> fail o)
      | 'K' -> (match Gen_ArrSqrt.coq_ShrinkTo seg idx !segs !n !c za with GenPrelude.Ok (_, n') -> n := n' | o -> fail o)
      | 'c' | 'C' -> (match Gen_ArrSqrt.coq_Clear seg idx cnt !segs !n !c (op = 'C') with GenPrelude.Ok ((_, n'), c') -> n := n'; c := c' | o -> fail o)
@@ -171,7 +197,7 @@ let ghist f l ops =
          (match Gen_ArrSqrt.coq_RemoveBack seg cnt !segs !n !c za with GenPrelude.Ok (_, c') -> c := c' | o -> fail o)
      | 'n' | 'o' -> (* the harness calls AddBackNogrow only when count < capacity *)
        if Z.lt (zarith_of_z !c) (zarith_of_z (Gen_ArrSqrt.coq_GetCapacity idx !segs !n !c)) then
-         (match Gen_ArrSqrt.coq_AddBackNogrowCrt seg !segs !n !c with GenPrelude.Ok (_, c') -> c := c' | o -> fail o)
+         (match Gen_ArrSqrt.coq_AddBackNogrowCrt seg !segs !n !c with GenPrelude.Ok (_, c') -> Hashtbl.replace cells (ci ()) !nextv; incr nextv; c := c' | o -> fail o)
      | _ -> bad := "GEN-BAD-OP");
     if !bad <> "" then Buffer.add_string b !bad else begin
       let top = if Z.sign (zarith_of_z !n) = 0 then "-1"
@@ -180,8 +206,10 @@ let ghist f l ops =
       let addr = if Z.sign (zarith_of_z !c) = 0 then "-1" else
           (match Gen_ArrSqrt.pvGetItem seg !segs !n !c (z_of_zarith (Z.div (zarith_of_z !c) (Z.of_int 2))) with
            | GenPrelude.Ok a -> string_of_z a | _ -> "GEN-GETITEM-STUCK") in
-      Buffer.add_string b (Printf.sprintf "%s/%s/%s/%s/%s/%s " (string_of_z !c) (string_of_z !n)
-                             (string_of_z (Gen_ArrSqrt.coq_GetCapacity idx !segs !n !c)) top addr dlog) end end) ops;
+      let h = ref 0 in
+      for i = 0 to ci () - 1 do h := (!h + ((i + 1) * ((try Hashtbl.find cells i with Not_found -> 0) mod 1000000007)) mod 1000000007) mod 1000000007 done;
+      Buffer.add_string b (Printf.sprintf "%s/%s/%s/%s/%s/%s/v%d " (string_of_z !c) (string_of_z !n)
+                             (string_of_z (Gen_ArrSqrt.coq_GetCapacity idx !segs !n !c)) top addr dlog !h) end end) ops;
   Buffer.contents b
 let () = iter_lines (fun line ->
   match words line with
